@@ -24,7 +24,10 @@ Patches == { <<>>,
              <<KV("k1", StrV("y")), KV("k2", NoneV)>>,
              <<KV("k2", StrV("x")), KV("callsign", StrV("B"))>>,
              <<KV("address_out", AddrV(A1))>>,
-             <<KV("address_in", AddrV(A2))>> }
+             <<KV("address_in", AddrV(A2))>>,
+             <<KV("address_nat", AddrV(A3))>>,
+             <<KV("serial", StrV("S")), KV("nat_enabled", StrV("True"))>>,
+             <<KV("dmr_id", StrV("7")), KV("snmp_enabled", NoneV)>> }
 
 Act(op, addr, auto, patch, id, key, val) ==
   [op |-> op, addr |-> addr, auto |-> auto, patch |-> patch, id |-> id, key |-> key, val |-> val]
